@@ -81,7 +81,7 @@ def o_gauss(y, s, cov_type):
     if cov_type == 'full':
         return mean, C
     if cov_type == 'diagonal':
-        return mean, np.diag(C).copy()
+        return mean, np.diag(C).copy(order='K')
     if cov_type == 'spherical':
         return mean, np.trace(C) / D
     raise ValueError(cov_type)
@@ -985,7 +985,7 @@ def corr_trainers(ctx, degenerate=False):
         mc = float(rng.choice([500, 100, 20]))
         tr = dist.ComplexWatsonTrainer(max_concentration=mc)
         try:
-            mw = tr.fit(yw.copy(), saliency=None if s is None else s.copy())
+            mw = tr.fit(yw.copy(order='K'), saliency=None if s is None else s.copy(order='K'))
             z = unit_rows(yw)
             S = o_scatter(z, s)
             lam_code = float(np.linalg.eigvalsh(S)[-1])
@@ -1042,7 +1042,7 @@ def corr_trainers(ctx, degenerate=False):
             return r
         cb.least_squares = spy
         try:
-            est = cb.ComplexBinghamTrainer.find_eigenvalues_v3(sc.copy(), eps=1e-8, max_concentration=mcb)
+            est = cb.ComplexBinghamTrainer.find_eigenvalues_v3(sc.copy(order='K'), eps=1e-8, max_concentration=mcb)
         except ALLOWED_EXC:
             est = None
         finally:
@@ -1071,7 +1071,7 @@ def corr_trainers(ctx, degenerate=False):
         g0 = gen_affiliation(rng, 1, Ke, Ne, hard=degenerate and rng.random() < 0.5)[0]
         eps_e = float(rng.choice([0.0, 1e-10, 1e-3]))
         try:
-            me = dist.CACGMMTrainer().fit(ye.copy(), initialization=g0.copy(), iterations=int(rng.integers(1, 4)),
+            me = dist.CACGMMTrainer().fit(ye.copy(order='K'), initialization=g0.copy(order='K'), iterations=int(rng.integers(1, 4)),
                                           weight_constant_axis=(-1,) if rng.random() < 0.7 else -2,
                                           eigenvalue_floor=float(rng.choice([1e-10, 1e-6, 1e-2])),
                                           covariance_norm=['eigenvalue', 'trace', False][int(rng.integers(3))])
